@@ -107,33 +107,37 @@ func invalidEvent(srcName string, data []byte, err error) string {
 	return "I:" + HS(srcName) + ":" + line + ":" + classifyRecErr(errors.Unwrap(err)) + ":" + H(data)
 }
 
+// parseRet classifies Parse's return value by its structure, not by its wording: the line
+// numbers of the *LineError values it carries (joined and/or wrapped, in order), or
+// "scanning" for an error without any (the reader's or the scanner's failure).
 func parseRet(err error) string {
 	if err == nil {
 		return "nil"
 	}
-	msg := err.Error()
-	switch {
-	case strings.HasPrefix(msg, "scanning: "):
-		return "scanning"
-	case strings.HasPrefix(msg, "parsing: "):
-		// the joined LineErrors
-		var nums []string
-		inner := errors.Unwrap(err)
-		if j, ok := inner.(interface{ Unwrap() []error }); ok {
-			for _, e := range j.Unwrap() {
-				var le *hostsfile.LineError
-				if errors.As(e, &le) {
-					nums = append(nums, I(le.Line))
-				} else {
-					nums = append(nums, "?")
-				}
-			}
-		} else {
-			nums = append(nums, "unjoined")
+	var nums []string
+	var walk func(e error)
+	walk = func(e error) {
+		if e == nil {
+			return
 		}
+		if le, ok := e.(*hostsfile.LineError); ok {
+			nums = append(nums, I(le.Line))
+			return
+		}
+		switch u := e.(type) {
+		case interface{ Unwrap() []error }:
+			for _, x := range u.Unwrap() {
+				walk(x)
+			}
+		case interface{ Unwrap() error }:
+			walk(u.Unwrap())
+		}
+	}
+	walk(err)
+	if len(nums) > 0 {
 		return "parsing:" + strings.Join(nums, ",")
 	}
-	return "other:" + sanitize(msg)
+	return "scanning"
 }
 
 // dumpStorage shows every index of s for the given keys, map-ordered parts sorted.
